@@ -218,7 +218,7 @@ def run(c):
         progs.append(prog)
     progs += programs(rnd, 8 if c.quick else 150)
     deadline = time.time() + (120 if c.quick else 600)   # safety net only: the schedule counts bound the exploration, so the result does not depend on machine load
-    explored = dc.explore_into(runs, c, progs, 12 if c.quick else 150, 5 if c.quick else 40, deadline, bound=1 if c.quick else 2,
+    explored = dc.explore_into(runs, c, progs, 8 if c.quick else 150, 3 if c.quick else 40, deadline, bound=1 if c.quick else 2,
                                max_steps=1500, gap_runs=6)
     laps["explore_s"] = round(time.time() - t0 - laps["model+replay_s"], 1)
     dc.validate(c, runs, TINVS, describe)
